@@ -13,7 +13,7 @@ case "$what" in
   *) git -C $wt apply "$what" ;;
 esac
 mkdir -p $vm
-rsync -a --delete --exclude 'harness/target' --exclude 'harness-reg/target' --exclude 'build/cli-target' --exclude 'build/*/run' \
+rsync -a --delete --exclude 'harness/target' --exclude 'harness-reg/target' --exclude 'build/cli-target*' --exclude 'build/*/run' \
       --exclude '.git' --exclude 'replays' /verif/ $vm/
 cd $vm
 rm -rf replays
